@@ -244,7 +244,8 @@ pub fn run(ctx: &mut Ctx) {
     // one more crash point per scenario: after the last write has landed, at the final resize
     // (regular files only: devices are not resized)
     let mut ks = ks;
-    if !error_family && !f.blockdev {
+    // (in the error family: the final resize fails with an error)
+    if !f.blockdev {
         ks.push(u64::MAX);
     }
     for &k in &ks {
@@ -291,6 +292,33 @@ pub fn run(ctx: &mut Ctx) {
                 return;
             }
             if !check_final(ctx, "crash", &desc) {
+                return;
+            }
+        } else if k == u64::MAX {
+            // ---- error family, the final resize: every write landed, ftruncate fails (a file the
+            // system will not resize, EIO, EPERM on a sealed or immutable file). A clone that
+            // says "done" must have left exactly the source; otherwise the re-run completes it.
+            let errno = *gen::t(|t| t.pick(&[libc::EIO, libc::EPERM, libc::EFBIG, libc::ENOSPC]));
+            let (o1, _, fired) = clone_once_op(&env, f.seed_output, true, false, Some((0, FaultAction::Errno(errno))), Op::Truncate);
+            fired_total += fired;
+            let desc = json!({"scenario": f.desc, "writes_uninterrupted": w, "fault": format!("ftruncate fails with errno {}", errno), "outcome": o1.short()});
+            if matches!(o1, Outcome::Panic(_) | Outcome::StepBudget | Outcome::Deadlock) {
+                ctx.fail(&format!("faulted-outcome:{}", o1.class()), format!("a clone whose final resize fails ended with {}; {}", o1.short(), desc));
+                return;
+            }
+            if fired > 0 {
+                simkit::count("fault:ResizeErrno");
+                if o1.is_success() && scen::get_file("out.bin").unwrap_or_default() != *src {
+                    ctx.fail("failed-resize-reported-success", format!("the final resize of the output failed (errno {}) yet the clone exited 0 and the output is not the source ({} bytes, the source has {}); {}", errno, scen::get_file("out.bin").map(|o| o.len()).unwrap_or(0), src.len(), desc));
+                    return;
+                }
+            }
+            let (o3, _, _) = clone_once(&env, true, gen::chance(1, 2), false, None);
+            if !o3.is_success() {
+                ctx.fail(&format!("rerun-failed:{}", o3.class()), format!("the fault-free re-run with the output as seed ended with {}; {}", o3.short(), desc));
+                return;
+            }
+            if !check_final(ctx, "error", &desc) {
                 return;
             }
         } else {
